@@ -412,6 +412,12 @@ func runC03(r *R) {
 		}
 		for _, g := range CallsIn(fn, "(*"+kcl+".KeepClient).Get") {
 			rd := readerUses(g)
+			if pp := fn.Package().Pkg.Path(); pp != modPrefix+kcl && pp != modPrefix+arv {
+				// outside the property's API surface (Keep client + collection reads): e.g. keepstore's remote proxy streams to a
+				// client that verifies the hash itself; keep-rsync feeds PutHR, which verifies. Reported, not required.
+				r.Info("C03-R6", fn, "reader of KeepClient.Get (other package)", g.Pos(), "consumer outside sdk/go/keepclient and sdk/go/arvados")
+				continue
+			}
 			switch {
 			case rd.returned:
 				r.Ok("C03-R6", fn, "reader of KeepClient.Get", g.Pos(), "passed on to the caller")
